@@ -578,18 +578,17 @@ func genC12Load(repo string, args []string) (out string, err error) {
 	sb.WriteString("(* loadCommentRule and the tail of loadRule (from the first statement that mentions rule.CommentPatterns), translated\n   statement by statement *)\n")
 	sb.WriteString("Section GenLoadCommentRules.\n")
 	sb.WriteString("Context {P B I R A E CR : Type}.      (* compiled regexp, goRule, filterInfo, *ir.Rule, pattern alternative, error, goCommentRule *)\n")
-	sb.WriteString("Variable regexp_Compile : bytes -> P + E.\n")
-	sb.WriteString("Variable l_errorf : R -> E -> bytes -> E.                          (* l.errorf(rule.Line, err, text) *)\n")
-	sb.WriteString("Variable l_checkBoundVars : R -> I -> (bytes -> bool) -> option E.\n")
-	sb.WriteString("Variable pat_SubexpIndex : P -> bytes -> Z.\n")
-	sb.WriteString("Variable set_line : B -> Z -> B.                                   (* base.line = line *)\n")
-	sb.WriteString("Variable regexpHasCaptureGroups : bytes -> bool.\n")
-	sb.WriteString("Variable mk_goCommentRule : B -> P -> bool -> CR.                  (* goCommentRule{base, pat, captureGroups} *)\n")
-	sb.WriteString("Variable rule_CommentPatterns : R -> list A.\n")
-	sb.WriteString("Variable alt_Value : A -> bytes.\nVariable alt_Line : A -> Z.\n\n")
-	fmt.Fprintf(&sb, "Definition gen_loadCommentRule %s (%s : list CR) : option E * list CR :=\n%s.\n\n", strings.Join(params, " "), ldState, calleeBody)
-	fmt.Fprintf(&sb, "Definition gen_loadRule_comments (%s : B) (%s : I) (%s : R) (%s : list CR) : option E * list CR :=\n%s.\n",
-		coqIdent(byType[ldBase][0]), coqIdent(byType[ldInfo][0]), coqIdent(byType[ldRule][0]), ldState, tail)
+	ops := "(regexp_Compile : bytes -> P + E)\n  (l_errorf : R -> E -> bytes -> E)                          (* l.errorf(rule.Line, err, text) *)\n" +
+		"  (l_checkBoundVars : R -> I -> (bytes -> bool) -> option E)\n  (pat_SubexpIndex : P -> bytes -> Z)\n" +
+		"  (set_line : B -> Z -> B)                                   (* base.line = line *)\n  (regexpHasCaptureGroups : bytes -> bool)\n" +
+		"  (mk_goCommentRule : B -> P -> bool -> CR)                  (* goCommentRule{base, pat, captureGroups} *)\n" +
+		"  (rule_CommentPatterns : R -> list A) (alt_Value : A -> bytes) (alt_Line : A -> Z)"
+	opArgs := "regexp_Compile l_errorf l_checkBoundVars pat_SubexpIndex set_line regexpHasCaptureGroups mk_goCommentRule rule_CommentPatterns alt_Value alt_Line"
+	calleeBody = strings.ReplaceAll(calleeBody, "gen_loadCommentRule ", "gen_loadCommentRule "+opArgs+" ")
+	tail = strings.ReplaceAll(tail, "gen_loadCommentRule ", "gen_loadCommentRule "+opArgs+" ")
+	fmt.Fprintf(&sb, "Definition gen_loadCommentRule\n  %s\n  %s (%s : list CR) : option E * list CR :=\n%s.\n\n", ops, strings.Join(params, " "), ldState, calleeBody)
+	fmt.Fprintf(&sb, "Definition gen_loadRule_comments\n  %s\n  (%s : B) (%s : I) (%s : R) (%s : list CR) : option E * list CR :=\n%s.\n",
+		ops, coqIdent(byType[ldBase][0]), coqIdent(byType[ldInfo][0]), coqIdent(byType[ldRule][0]), ldState, tail)
 	sb.WriteString("End GenLoadCommentRules.\n")
 	return fmt.Sprintf(header, "ruleguard/ir_loader.go (loadCommentRule, tail of loadRule)") + sb.String(), nil
 }
